@@ -55,7 +55,8 @@ CoreTags == Range(Cat.coretags)
 ClassNames == {Mod.classes[i].name : i \in DOMAIN Mod.classes}
 Cls(name) == Mod.classes[CHOOSE i \in DOMAIN Mod.classes : Mod.classes[i].name = name]
 IsReg(name) == \E i \in DOMAIN Mod.reg : Mod.reg[i] = name
-ClassTag(name) == "!" \o name
+\* the tag is built from the class's Python __name__ (two classes may share it)
+ClassTag(name) == "!" \o Cls(name).pyname
 IsCore(tag) == tag \in CoreTags
 TagClass(tag) == IF \E c \in ClassNames : IsReg(c) /\ ClassTag(c) = tag
                  THEN CHOOSE c \in ClassNames : IsReg(c) /\ ClassTag(c) = tag
@@ -433,7 +434,37 @@ ConSeq(kids, i, acc, s, prog, ok) ==
          ConSeq(kids, i + 1, IF ok /\ r.ok THEN Append(acc, r.v) ELSE acc,
                 r.s, prog, ok /\ r.ok)
 
-\* SafeConstructor.construct_mapping (no merge keys in the alphabets)
+\* SafeConstructor.flatten_mapping: the pairs of a mapping after merge keys
+\* (`<<`) have been resolved: merged pairs first, then the mapping's own;
+\* <<0>> if the value of a merge key is not a mapping or a list of mappings
+RECURSIVE FlatKids(_, _, _)
+RECURSIVE FlatSeq(_, _, _, _)
+BadMerge == <<0>>
+FlatSeq(h, items, i, fuel) ==
+    \* list of mappings: later mappings are merged first (submerge.reverse())
+    IF i > Len(items) THEN <<>>
+    ELSE IF h[items[i]].k # "m" THEN BadMerge
+    ELSE LET rest == FlatSeq(h, items, i + 1, fuel)
+             me == FlatKids(h, items[i], fuel - 1) IN
+         IF rest = BadMerge \/ me = BadMerge THEN BadMerge ELSE rest \o me
+FlatKids(h, n, fuel) ==
+    IF fuel <= 0 THEN BadMerge
+    ELSE
+    LET kids == h[n].c
+        RECURSIVE Go(_, _, _)
+        Go(i, merged, own) ==
+            IF i > Len(kids) THEN merged \o own
+            ELSE IF h[kids[i]].k = "s" /\ h[kids[i]].t = "merge" THEN
+                LET v == kids[i + 1]
+                    m == IF h[v].k = "m" THEN FlatKids(h, v, fuel - 1)
+                         ELSE IF h[v].k = "q" THEN FlatSeq(h, h[v].c, 1, fuel)
+                         ELSE BadMerge IN
+                IF m = BadMerge THEN BadMerge ELSE Go(i + 2, merged \o m, own)
+            ELSE Go(i + 2, merged, own \o <<kids[i], kids[i + 1]>>)
+    IN Go(1, <<>>, <<>>)
+HasMergeKey(h, n) == \E i \in DOMAIN h[n].c : i % 2 = 1 /\ h[h[n].c[i]].k = "s" /\ h[h[n].c[i]].t = "merge"
+
+\* SafeConstructor.construct_mapping
 ConPairs(kids, i, acc, s, prog, ok) ==
     IF i > Len(kids) THEN CR(acc, s, ok)
     ELSE LET rk == Con(kids[i], s, prog, 0)
@@ -535,8 +566,10 @@ Con(n, s, prog, dummy) ==
                       CR(<<"list", q.v>>, q.s, q.ok)
             [] tag = "map" ->
                  IF h[n].k # "m" THEN CBad(s, "YamlErr", {n}, {})
-                 ELSE LET q == ConPairs(h[n].c, 1, <<>>, s, prog \cup {n}, TRUE) IN
-                      CR(<<"dict", q.v>>, q.s, q.ok)
+                 ELSE LET fk == IF HasMergeKey(h, n) THEN FlatKids(h, n, Fuel(h)) ELSE h[n].c IN
+                      IF fk = BadMerge THEN CBad(s, "YamlErr", {n}, {})
+                      ELSE LET q == ConPairs(fk, 1, <<>>, s, prog \cup {n}, TRUE) IN
+                           CR(<<"dict", q.v>>, q.s, q.ok)
             [] tag \in {"str", "int", "float", "bool", "null", "timestamp"} ->
                  IF h[n].k # "s" THEN CBad(s, "YamlErr", {n}, {})
                  ELSE LET v == CtorLookup(tag, h[n].v) IN
